@@ -93,3 +93,15 @@ claim("C03",
       "Does not decide that a flagged-converged density is idempotent / commuting / trace-correct to O(eps), nor termination of "
       "library calls. Trusted: sa.loops counter rule, CFG builder.",
       "DESIGN.md section 4, C03")
+
+claim("C07",
+      "inventory/who-may-cut rule on graph-breaking operations along the energy path, interface checks of the four autograd Functions, "
+      "sympy implicit-function-theorem check of the rho1/rho2 backward, CFG dominance of the detach in the SCF adjoint",
+      "Decides that caller-supplied parameter tensors reach molecule.parameters without a graph cut and that no new graph cut "
+      "appears on the energy path; that every custom backward returns one cotangent per forward input, unpacks saved tensors in "
+      "the saved order and lines SCF's cotangents up with (M, w, W, gss, gpp, gsp, gp2, hsp); that the rho1/rho2 backward is the "
+      "implicit-function derivative of the very residual the forward solves; that the SCF adjoint differentiates detached "
+      "leaves, reads no class state, and that the unrolled mode updates the density out of place.",
+      "Does not decide finite-difference agreement or Hessian symmetry numerically. Trusted: sympy (with a 60-digit random-point "
+      "identity test where radicals do not normalise), frozen inventory of accepted cuts (each with a reason).",
+      "DESIGN.md section 4, C07")
